@@ -187,7 +187,9 @@ def widen(old, new, ty_hint=None):
         return ("en", tuple(out))
     if k == "vec":
         j = join(old, new)
-        return ("vec", widen(old[1], j[1]) if old[1] is not None and j[1] is not None else j[1], j[2], _thr_up(j[3]) if j[3] > old[3] else j[3])
+        # a vector that is still growing (push in a loop): its length jumps straight to the maximum the summaries use - walking the thresholds
+        # one per round can exhaust the round limit together with the element's own widening
+        return ("vec", widen(old[1], j[1]) if old[1] is not None and j[1] is not None else j[1], j[2], max(j[3], 2**32) if j[3] > old[3] else j[3])
     return join(old, new)
 
 
@@ -2106,7 +2108,15 @@ class Interp:
                 args.append(v)
         self.call_depth = 0
         self.current_root = f["path"].replace("curve25519_dalek::", "")[-60:]
-        ret = self.call_fn(f, args, st, 0, tyenv)
+        own_deadline = self.deadline is None
+        if own_deadline:
+            # every root has a wall-clock limit (the drivers set their own); exceeding it is an analysis failure, never a pass
+            self.deadline = time.time() + float(os.environ.get("VERIF_ROOT_SECONDS", "900"))
+        try:
+            ret = self.call_fn(f, args, st, 0, tyenv)
+        finally:
+            if own_deadline:
+                self.deadline = None
         return ret, st.frames[0]
 
     def ops_text(self, st, depth, fv, ops):
